@@ -26,6 +26,8 @@ import time
 VERIF = os.path.dirname(os.path.dirname(os.path.abspath(__file__)))
 REPO = os.environ.get('VERIF_REPO', '/repo')
 SCRATCH = os.environ.get('VERIF_SCRATCH', '/var/tmp/relic-verif')
+# where evidence/ and replays/ are written (mutant runs against scratch copies point this elsewhere)
+OUT = os.environ.get('VERIF_OUT', VERIF)
 NPROC = min(16, os.cpu_count() or 1)
 
 M64 = (1 << 64) - 1
@@ -135,6 +137,10 @@ CONFIGS = {
 }
 
 
+# extra link flags per executor
+ENGINE_LINK = {'drbgsim': ['-Wl,--wrap=rand_bytes']}
+
+
 class BuildError(Exception):
     pass
 
@@ -166,8 +172,9 @@ def build(config, engine, repo=None, quiet=True):
         if os.path.exists(log) and os.path.getsize(log) > (4 << 20):
             os.unlink(log)
         os.makedirs(src, exist_ok=True)
-        # rsync keeps mtimes, so the ninja build is incremental and always reflects the tree
-        _run(['rsync', '-a', '--delete', '--exclude', '/_build', '--exclude', '/.git',
+        # content-based sync without preserving mtimes: a file is rewritten (and gets a fresh mtime,
+        # so ninja rebuilds it) exactly when its content differs - also when an edit is reverted
+        _run(['rsync', '-rlpc', '--delete', '--exclude', '/_build', '--exclude', '/.git',
               repo.rstrip('/') + '/', src + '/'], log=log)
         stamp = os.path.join(bld, '.verif-config')
         want = json.dumps([BASE_OPTS, cfg['cmake'], cfg['cflags']])
@@ -203,7 +210,7 @@ def build(config, engine, repo=None, quiet=True):
             cmd = (['gcc'] + cfg['exe_cflags'].split() + ['-D_GNU_SOURCE', '-Wno-unused-function',
                    '-I', os.path.join(src, 'include'), '-I', os.path.join(src, 'include', 'low'),
                    '-I', os.path.join(bld, 'include'), '-I', os.path.join(VERIF, 'exec'),
-                   '-o', exe + '.tmp', csrc, lib] + cfg['link'])
+                   '-o', exe + '.tmp', csrc, lib] + cfg['link'] + ENGINE_LINK.get(engine, []))
             _run(cmd, log=log)
             os.replace(exe + '.tmp', exe)
         return exe
@@ -460,7 +467,7 @@ def _worker(engine_mod, config, exe, prop, seed, tier, wid, nworkers, nruns, dea
     maxkeys = 200000
     try:
         i = wid
-        while i < nruns and time.time() < deadline:
+        while i < nruns and time.time() < deadline and len(agg['found']) < 12:
             rng = Rng.derive(seed, eng.NAME, config, i)
             plan = eng.gen_plan(rng, tier, config, opts)
             t0 = time.time()
@@ -491,7 +498,12 @@ def _worker(engine_mod, config, exe, prop, seed, tier, wid, nworkers, nruns, dea
                 agg['samples'].append(dict(index=i, plan=plan[:1500], outcome='ok' if not out.violations else 'violation',
                                            evaluations=out.evals))
             for v in out.violations:
-                if len(agg['found']) < 20:
+                if v.prop != prop:
+                    # another property's domain (e.g. a crash under an injected allocation failure
+                    # inside errsim belongs to C08): counted, not reported by this check
+                    agg['faults']['foreign:' + v.sig[:60]] = agg['faults'].get('foreign:' + v.sig[:60], 0) + 1
+                    continue
+                if len(agg['found']) < 12:
                     agg['found'].append(dict(index=i, plan=plan, prop=v.prop, sig=v.sig, detail=v.detail,
                                              status=status))
             i += nworkers
@@ -686,34 +698,47 @@ def shrink(engine_mod, config, exe, plan, prop, sig, opts=None, budget_runs=300,
 
 
 def confirm_and_report(engine_mod, config, exe, finding, prop_checked, seed, known, opts=None, do_shrink=True):
-    """Gates + minimisation for one finding.  Returns dict(kind='violation'|'known'|'infra', ...)."""
+    """Gates + minimisation for one finding.  Returns dict(kind='violation'|'known'|'unconfirmed', ...).
+
+    Gate 1: the plan is executed twice more, each time in a new executor process, and the same
+    violation signature must recur both times (the transcript hashes are compared too; if they
+    differ although the signature recurs, the library's output itself depends on something that is
+    not in the plan - never-written storage, addresses - and the report says so).
+    Gate 2: the minimised plan is written to the replay file and replayed in a fresh process; it
+    must fail with the same signature, else the unminimised plan is used instead."""
     plan = finding['plan']
     sig = finding['sig']
     prop = finding['prop']
-    # gate 1: executed twice more in-process; hashes must match and the signature must recur
-    ex = Executor(exe, 'gate.%s.%s' % (engine_mod.NAME, config))
-    try:
-        r1 = evaluate_plan(engine_mod, config, exe, plan, prop, ex=ex, opts=opts)
-        r2 = evaluate_plan(engine_mod, config, exe, plan, prop, ex=ex, opts=opts)
-    finally:
-        ex.close()
-    if r1[1] != r2[1] or not any(s == sig for _, s, _ in r1[0]) or not any(s == sig for _, s, _ in r2[0]):
-        return dict(kind='infra', why='gate 1 failed: signature %s did not recur identically (hashes %s / %s, sigs %s / %s)'
-                    % (sig, r1[1][:12], r2[1][:12], [s for _, s, _ in r1[0]], [s for _, s, _ in r2[0]]))
+    r1 = evaluate_plan(engine_mod, config, exe, plan, prop, opts=opts)
+    r2 = evaluate_plan(engine_mod, config, exe, plan, prop, opts=opts)
+    if not any(s == sig for _, s, _ in r1[0]) or not any(s == sig for _, s, _ in r2[0]):
+        return dict(kind='unconfirmed', sig=sig,
+                    why='gate 1: signature %s did not recur in two fresh executors (got %s / %s); the finding depended on '
+                        'state left behind by earlier plans in the same executor' % (sig, [s for _, s, _ in r1[0]],
+                                                                                  [s for _, s, _ in r2[0]]))
+    nondet = r1[1] != r2[1]
     nshrink = 0
+    small = plan
     if do_shrink:
-        plan, nshrink = shrink(engine_mod, config, exe, plan, prop, sig, opts=opts)
-    # gate 2: fresh-process replay from the written file
-    os.makedirs(os.path.join(VERIF, 'replays'), exist_ok=True)
+        small, nshrink = shrink(engine_mod, config, exe, plan, prop, sig, opts=opts)
+    os.makedirs(os.path.join(OUT, 'replays'), exist_ok=True)
     tag = hashlib.sha256(sig.encode()).hexdigest()[:10]
-    path = os.path.join(VERIF, 'replays', '%s-%s-%s-%d.plan' % (prop, engine_mod.NAME, tag, finding['index']))
-    with open(path, 'w') as f:
-        f.write(plan)
-    r3 = evaluate_fresh(engine_mod, config, exe, path, prop, opts=opts)
-    if not any(s == sig for _, s, _ in r3[0]):
-        return dict(kind='infra', why='gate 2 failed: fresh-process replay of %s gave %s instead of %s'
-                    % (path, [s for _, s, _ in r3[0]], sig))
+    path = os.path.join(OUT, 'replays', '%s-%s-%s-%d.plan' % (prop, engine_mod.NAME, tag, finding['index']))
+    r3 = None
+    for cand in ([small, plan] if small != plan else [plan]):
+        with open(path, 'w') as f:
+            f.write(cand)
+        r3 = evaluate_fresh(engine_mod, config, exe, path, prop, opts=opts)
+        if any(s == sig for _, s, _ in r3[0]):
+            plan = cand
+            break
+    else:
+        return dict(kind='unconfirmed', sig=sig,
+                    why='gate 2: fresh-process replay of %s gave %s instead of %s' % (path, [s for _, s, _ in r3[0]], sig))
     detail = next(d for _, s, d in r3[0] if s == sig)
+    if nondet:
+        detail += ('\n[note: two executions of this plan produced different transcripts although the same violation '
+                   'recurred - the library output depends on something outside the plan, e.g. never-written storage]')
     ke = known_entry(sig, known)
     return dict(kind='known' if ke else 'violation', prop=prop, sig=sig, path=path, detail=detail,
                 shrink_runs=nshrink, what=(ke or {}).get('what'), plan_lines=len(plan.strip().split('\n')))
@@ -722,7 +747,7 @@ def confirm_and_report(engine_mod, config, exe, finding, prop_checked, seed, kno
 # --------------------------------------------------------------------------- evidence
 
 def write_evidence(prop, tier, seed, level, totals, wall_s, nviol, rule, extra=None, assumptions=None):
-    os.makedirs(os.path.join(VERIF, 'evidence'), exist_ok=True)
+    os.makedirs(os.path.join(OUT, 'evidence'), exist_ok=True)
     evaluations = sum(t['evals'] for t in totals)
     keys = set()
     for t in totals:
@@ -755,7 +780,7 @@ def write_evidence(prop, tier, seed, level, totals, wall_s, nviol, rule, extra=N
         cov.update(extra)
     ev = dict(property_id=prop, tier=tier, seed=int(seed), level=level, coverage=cov,
               assumptions=assumptions or [], wall_s=round(wall_s, 2), violations=int(nviol))
-    path = os.path.join(VERIF, 'evidence', prop + '.json')
+    path = os.path.join(OUT, 'evidence', prop + '.json')
     tmp = path + '.tmp'
     with open(tmp, 'w') as f:
         json.dump(ev, f, indent=1, sort_keys=False, default=str)
